@@ -335,29 +335,65 @@ type grpFamily struct {
 	members []grpMember
 }
 
-type grpMember struct{ tag, dir, file, grp, inf string }
+type grpMember struct {
+	tag, dir, file, grp, inf string
+	funcs                    []string // nil: the family's
+}
+
+func (fam grpFamily) funcsOf(m grpMember) []string {
+	if m.funcs != nil {
+		return m.funcs
+	}
+	return fam.funcs
+}
+
+func (fam grpFamily) has(m grpMember, fn string) bool {
+	for _, g := range fam.funcsOf(m) {
+		if g == fn {
+			return true
+		}
+	}
+	return false
+}
+
+// twisted Edwards: scalarMulWindowed + ScalarMultiplication of PointProj / PointExtended (bandersnatch's ScalarMultiplication goes through
+// scalarMulGLV: only its scalarMulWindowed belongs to the family)
+func teMembers() []grpMember {
+	var ms []grpMember
+	for _, d := range teDirs {
+		tag := leanName(strings.TrimSuffix(d, "/twistededwards"))
+		var fs []string
+		if strings.HasSuffix(d, "bandersnatch") {
+			fs = []string{"scalarMulWindowed"}
+		}
+		ms = append(ms, grpMember{tag: tag + "_Proj", dir: d, file: "point.go", grp: "PointProj", funcs: fs})
+		ms = append(ms, grpMember{tag: tag + "_Ext", dir: d, file: "point.go", grp: "PointExtended", funcs: fs})
+	}
+	return ms
+}
 
 func wMembers() []grpMember {
 	var ms []grpMember
 	g1 := []string{"bn254", "bls12-377", "bls12-381", "bls24-315", "bls24-317", "bw6-633", "bw6-761", "secp256k1", "stark-curve", "grumpkin"}
 	for _, c := range g1 {
-		ms = append(ms, grpMember{leanName(c) + "_G1", "ecc/" + c, "g1.go", "G1Jac", "g1Infinity"})
+		ms = append(ms, grpMember{tag: leanName(c) + "_G1", dir: "ecc/" + c, file: "g1.go", grp: "G1Jac", inf: "g1Infinity"})
 	}
 	for _, c := range g1[:7] {
-		ms = append(ms, grpMember{leanName(c) + "_G2", "ecc/" + c, "g2.go", "G2Jac", "g2Infinity"})
+		ms = append(ms, grpMember{tag: leanName(c) + "_G2", dir: "ecc/" + c, file: "g2.go", grp: "G2Jac", inf: "g2Infinity"})
 	}
 	return ms
 }
 
 var grpFamilies = []grpFamily{
 	{name: "MulW", funcs: []string{"mulWindowed"}, members: wMembers()},
+	{name: "TEMul", funcs: []string{"scalarMulWindowed", "ScalarMultiplication"}, members: teMembers()},
 }
 
 func (fam grpFamily) targets() []impTarget {
 	var ts []impTarget
 	for _, m := range fam.members {
 		ns := fam.name + "_" + m.tag
-		ts = append(ts, impTarget{dir: m.dir, file: m.file, ns: ns, out: "Imp/" + ns + ".lean", funcs: fam.funcs, grp: m.grp, inf: m.inf})
+		ts = append(ts, impTarget{dir: m.dir, file: m.file, ns: ns, out: "Imp/" + ns + ".lean", funcs: fam.funcsOf(m), grp: m.grp, inf: m.inf})
 	}
 	return ts
 }
@@ -397,7 +433,7 @@ func (fam grpFamily) allFile(infos map[string][]impLoopInfo) string {
 			}
 			lemmas = append(lemmas, ln)
 		}
-		for _, fn := range fam.funcs {
+		for _, fn := range fam.funcsOf(m) {
 			ln := m.tag + "_" + fn + "_same"
 			b.WriteString("theorem " + ln + " : @" + ns + "." + fn + " = @" + first + "." + fn + " := by\n  unfold " + ns + "." + fn + " " + first + "." + fn +
 				"\n  simp only [" + strings.Join(lemmas, ", ") + "]\n")
@@ -412,18 +448,19 @@ func (fam grpFamily) allFile(infos map[string][]impLoopInfo) string {
 		}
 		b.WriteString("/-- the translated " + fn + " of every member of the family, by name -/\ndef all_" + fn + " : List (String × (" + ty + ")) := [\n")
 		var alts []string
+		var rows []string
 		for i, m := range fam.members {
-			sep := ","
-			if i == len(fam.members)-1 {
-				sep = ""
+			if !fam.has(m, fn) {
+				continue
 			}
-			b.WriteString("  (\"" + m.tag + "\", @" + fam.name + "_" + m.tag + "." + fn + ")" + sep + "\n")
+			rows = append(rows, "  (\""+m.tag+"\", @"+fam.name+"_"+m.tag+"."+fn+")")
 			if i > 0 {
 				alts = append(alts, "exact "+m.tag+"_"+fn+"_same")
 			}
 		}
+		b.WriteString(strings.Join(rows, ",\n") + "\n")
 		b.WriteString("]\n\ntheorem all_" + fn + "_same : ∀ e ∈ all_" + fn + ", @e.2 = @" + first + "." + fn + " := by\n  intro e he\n  simp only [all_" + fn +
-			", List.mem_cons, List.not_mem_nil, or_false] at he\n  rcases he with " + strings.TrimSuffix(strings.Repeat("rfl | ", len(fam.members)), " | ") +
+			", List.mem_cons, List.not_mem_nil, or_false] at he\n  rcases he with " + strings.TrimSuffix(strings.Repeat("rfl | ", len(rows)), " | ") +
 			" <;> first | rfl | (simp only []; first | " + strings.Join(alts, " | ") + ")\n\n")
 	}
 	b.WriteString("end GV.Gen.Imp." + fam.name + "All\n")
